@@ -260,12 +260,7 @@ def focus_cases(focus, th, sqrt_available):
             return []
         for op, name in ((9, "asin"), (10, "acos")):
             _un(cases, op, name, list(range(-65536, 65537)) + [65537, -65537, 65536 + 4096, -(1 << 20), 1 << 40, FX_MAX, -FX_MAX, FX_NAN, -FX_NAN], dep=True)
-        for x in sorted(set(range(-65536, 65537, 8)) | {-65536, -65535, 65535, 65536, -1, 0, 1}):
-            _law(cases, "asin_odd", f"W_asin({L(-x)}) == -W_asin({L(x)})", f"asin(-x) == -asin(x), raw x={x}", dep=True)
-            _law(cases, "acos_vs_asin", f"W_acos({L(x)}) + W_asin({L(x)}) >= 102943 && W_acos({L(x)}) + W_asin({L(x)}) <= 102944", f"acos(x) within 1 ulp of pi/2 - asin(x), raw x={x}", dep=True)
-            if x > -65536:
-                _law(cases, "asin_monotone", f"W_asin({L(x)}) >= W_asin({L(x - 1)})", f"asin(x) >= asin(x - 1ulp), raw x={x}", dep=True)
-        return cases
+        return cases       # the relational clauses are evaluated on the complete value table of each translation unit: table_laws()
     if focus == "C19":      # the compiled table functions: not constexpr by design; if a tree makes them constexpr the values must satisfy the property
         for cosine in (0, 1):
             for d in list(range(-370, 731, 3)) + [65446, -65446, 1 << 20, -(1 << 20), 2147483647, -2147483647 - 1]:
@@ -729,6 +724,24 @@ def compile_chunk(compiler, std, algo, inc, lines, workdir, tag):
             return [None] * len(lines), rejected
     raise RuntimeError("constant-evaluation chunk still fails after removing rejected lines")
 
+def table_laws(focus, val):
+    """Relational clauses evaluated on the complete table of constant-evaluated values of ONE translation unit (val: call tuple -> value).
+    Yields (entry, law expression for replay, description). Used where the alphabet is a complete domain, so that every instance of
+    the relation is decided without evaluating anything twice."""
+    def sv(v):
+        return v - (1 << 64) if v >= 1 << 63 else v
+    if focus == "C12":
+        A = {x: sv(val[("un", 9, x)]) for x in range(-65536, 65537) if ("un", 9, x) in val}
+        C = {x: sv(val[("un", 10, x)]) for x in range(-65536, 65537) if ("un", 10, x) in val}
+        L = i64lit
+        for x in range(-65536, 65537):
+            if x in A and -x in A and A[-x] != -A[x]:
+                yield ("asin_odd", f"W_asin({L(-x)}) == -W_asin({L(x)})", f"asin(-x) == -asin(x), raw x={x}: {A[-x]} vs {-A[x]}")
+            if x in A and x - 1 in A and A[x] < A[x - 1] and abs(A[x]) != FX_NAN and abs(A[x - 1]) != FX_NAN:
+                yield ("asin_monotone", f"W_asin({L(x)}) >= W_asin({L(x - 1)})", f"asin(x) >= asin(x - 1ulp), raw x={x}: {A[x]} < {A[x - 1]}")
+            if x in A and x in C and abs(A[x]) != FX_NAN and abs(C[x]) != FX_NAN and not (102943 <= A[x] + C[x] <= 102944):
+                yield ("acos_vs_asin", f"W_acos({L(x)}) + W_asin({L(x)}) >= 102943 && W_acos({L(x)}) + W_asin({L(x)}) <= 102944", f"acos(x) within 1 ulp of pi/2 - asin(x), raw x={x}: acos {C[x]}, asin {A[x]}")
+
 def _example(cs, cfgname, shape, expected, got, prop):
     return {"entry": cs.entry, "cfg": cfgname, "shape": shape, "expected": expected, "got": got, "note": "", "rcase": "",
             "inputs": {"expr": cs.expr, "case": cs.desc, "rt": json.dumps(list(cs.rt) if cs.rt is not None else None), "flags": json.dumps([cs.sqrt_dep, cs.dbl, cs.res32]), "mode": cs.mode, "prop": prop}, "rin": []}
@@ -819,10 +832,16 @@ def run_lane(tier, inc, shim_dir, build_shims, workdir, ncpu, only_ub=False, foc
         items = [(i, cs.rt, vals[i]) for i, (cs, _, _) in enumerate(chunk) if cs.mode == "oracle" and i not in rej and vals[i] is not None]
         verdicts = judge_values(exe, sdir, prop, name, items, workdir, tag) if items else {}
         return j, vals, rej, verdicts, len(items)
+    tu_vals = {}
     with cf.ThreadPoolExecutor(ncpu) as ex:
         for j, vals, rej, verdicts, njudged in ex.map(work, jobs):
             name, c, s, a, k, chunk = j
             cfgname = f"{c}-{s}-{a} (constant evaluation)"
+            if focus == "C12":
+                tv = tu_vals.setdefault(cfgname, {})
+                for i, (cs, _, _) in enumerate(chunk):
+                    if cs.rt is not None and i not in rej and vals[i] is not None:
+                        tv[tuple(cs.rt)] = vals[i]
             reasons = rej.pop("_reasons", [])
             if focus:
                 stats["consteval.judged_by_the_property_oracle"] += njudged
@@ -864,6 +883,13 @@ def run_lane(tier, inc, shim_dir, build_shims, workdir, ncpu, only_ub=False, foc
                                                                                       hex(rtv) + " (run-time value)", hex(v) + " (constant-evaluated value)", prop))
                 elif len(samples) < 3 and cs.entry in ("tan", "mixed/_double", "hypot"):
                     samples.append(f"constexpr {cs.expr} == run time {hex(rtv)} in {name}")
+    for cfgname, tv in sorted(tu_vals.items()):
+        n = 0
+        for entry, expr, desc in table_laws(focus, tv):
+            cs = Case(entry, f"(({expr}) ? 1 : 0)", None, desc, sqrt_dep=True, mode="law")
+            add(prop + ".consteval_law_violated." + entry, 1, _example(cs, cfgname, "constexpr law (a relation between constant-evaluated calls), evaluated on the complete value table", "true", "false", prop))
+            n += 1
+        stats["consteval.relations_evaluated_on_complete_value_tables"] = stats.get("consteval.relations_evaluated_on_complete_value_tables", 0) + 3 * 131073
     return sorted(classes.values(), key=lambda x: x["class"]), stats, samples
 
 
